@@ -150,6 +150,22 @@ def source_hash(rel, qualname):
         return f"unlocated:{type(e).__name__}"
 
 
+def file_hash(rel):
+    try:
+        return hashlib.sha256(open(os.path.join(REPO, rel), "rb").read()).hexdigest()[:16]
+    except OSError:
+        return "missing"
+
+
+def load_baseline(pid):
+    """obligations discharged on the pinned tree -> hash of the repo file they were generated from (committed; written only by
+    `VERIF_RECORD_BASELINE=1 ./check <id>`, never at check time)"""
+    p = os.path.join(VERIF, "baseline", f"{pid}.json")
+    if not os.path.exists(p):
+        return {}
+    return json.load(open(p))
+
+
 # ------------------------------------------------------------------------------------------------
 # runner
 
@@ -307,6 +323,35 @@ def finish(plan: Plan, results, tier, seed, t_start, checker_cmd):
 
     if not samples:
         samples = [ob.name for ob in plan.obligations[:5]]
+
+    # An obligation that was DISCHARGED on the pinned tree, whose source file has changed since, and that the verifier can no
+    # longer discharge (after the retry with a larger budget) while no stand-in vouches for it: reported as a violation without a
+    # failing input (the replay file names the obligation and carries the verifier's output).  With the source file unchanged the
+    # same outcome is a solver-budget problem and stays "undecided".
+    base = load_baseline(pid)
+    if os.environ.get("VERIF_RECORD_BASELINE") == "1" and os.path.realpath(REPO) == "/repo":
+        os.makedirs(os.path.join(VERIF, "baseline"), exist_ok=True)
+        rec = {ob.name: file_hash(ob.func[0]) for ob, r in zip(plan.obligations, results)
+               if r["status"] == DISCHARGED and ob.func and not ob.finding}
+        with open(os.path.join(VERIF, "baseline", f"{pid}.json"), "w") as fh:
+            json.dump(rec, fh, indent=0, sort_keys=True)
+    still = []
+    for ob, r in undecided:
+        passed_standin = (r.get("extra") or {}).get("standin") == "passed"
+        if ob.func and ob.name in base and not passed_standin and base[ob.name] != file_hash(ob.func[0]):
+            os.makedirs(rep_dir, exist_ok=True)
+            path = os.path.join(rep_dir, safe_name(ob.name) + ".json")
+            with open(path, "w") as fh:
+                json.dump(jsonable(dict(property=pid, obligation=ob.name, kind=ob.kind, function=list(ob.func),
+                                        function_sha=source_hash(*ob.func), file_sha=file_hash(ob.func[0]), baseline_file_sha=base[ob.name],
+                                        witness=None, backend=r["backend"], solver_output=r["detail"], tier=tier,
+                                        replay=dict(confirmed=None, note="obligation was discharged on the pinned tree; the source file "
+                                                    "changed and the verifier no longer discharges it; no failing input was found"))),
+                          fh, indent=1)
+            violations.append((ob, r, path, None))
+        else:
+            still.append((ob, r))
+    undecided = still
 
     level = plan.level
     coverage = dict(
